@@ -14,7 +14,7 @@ namespace etl {
 /// string pointed to by haystack. The terminating null characters are not
 /// compared.
 /// \ingroup cstring
-[[nodiscard]] constexpr auto strstr(char* haystack, char* needle) noexcept -> char*
+[[nodiscard]] constexpr auto strstr(char* haystack, char const* needle) noexcept -> char*
 {
     return etl::detail::strstr_impl<char>(haystack, needle);
 }
